@@ -87,6 +87,19 @@ def load_proposed(c):
                 c.known.append(f)
 
 
+def stream_rows(hb, **kw):
+    """the lab shares the Go build cache and the machine with other checks: retry a run that died of
+    an environmental error (cache entry trimmed under the linker, …)"""
+    last = None
+    for attempt in range(3):
+        try:
+            return harness(hb, "c10-rows", **kw)
+        except RuntimeError as e:
+            last = e
+            log("c10-rows failed (attempt %d): %s" % (attempt + 1, str(e)[-400:]))
+    raise last
+
+
 def run_rows(c, hb, stream, rows, **kw):
     """model vs implementation through Check.correspond (verdicts blanked: EVERY disagreement counts),
     then every oracle failure on its own: known finding or violation (no cap on the number of classes)"""
@@ -209,21 +222,21 @@ def main():
     all_rows = []
     census = collections.Counter()
     # 1. pinned terms: every confirmed deviation and every construct that must keep working
-    rows = harness(hb, "c10-rows", pinned=1, seed=c.seed, tier=c.tier, timeout=3600)
+    rows = stream_rows(hb, pinned=1, seed=c.seed, tier=c.tier, timeout=3600)
     run_rows(c, hb, "c10-pinned", rows, pinned=1)
     census += fits_census(c, rows)
     all_rows += rows
     # 2. generated terms (defaults of every value type, three formats)
     plan = [dict(n=48, seed=c.seed)] if quick else [dict(n=200, seed=c.seed + i) for i in range(3)]
     for a in plan:
-        rows = harness(hb, "c10-rows", tier=c.tier, timeout=7200, **a)
+        rows = stream_rows(hb, tier=c.tier, timeout=7200, **a)
         run_rows(c, hb, "c10-rows", rows, **a)
         census += fits_census(c, rows)
         all_rows += rows
     if not quick:
         # known-bad constructs re-enabled in the generator: everything that fails must be a known finding
         a = dict(n=60, seed=c.seed, switches="+default.list.nonString,+default.emptyList,+default.struct.enumField")
-        rows = harness(hb, "c10-rows", tier=c.tier, timeout=7200, **a)
+        rows = stream_rows(hb, tier=c.tier, timeout=7200, **a)
         run_rows(c, hb, "c10-rows-knownbad", rows, **a)
         census += fits_census(c, rows)
         all_rows += rows
